@@ -297,8 +297,26 @@ def rule_r7(ctx) -> RuleResult:
     ifs = [n for n in fn.body if isinstance(n, ast.If) and any(isinstance(c, ast.Call) and unparse(c.func) == "table_hdr_cell_fn" for c in ast.walk(n))]
     if len(ifs) != 1:
         raise AnalysisError("double_vbar_fn: header/data decision not found")
-    t = unparse(ifs[0].test)
-    if "children[-1].kind == NodeKind.TABLE_HEADER_CELL" in t:
+    # the decision, with locals that are assigned once in the function replaced by their values
+    once = {}
+    for n in walk_no_nested(fn):
+        if isinstance(n, ast.Assign) and len(n.targets) == 1 and isinstance(n.targets[0], ast.Name):
+            once.setdefault(n.targets[0].id, []).append(n.value)
+
+    class _R(ast.NodeTransformer):
+        def visit_Name(self, n):
+            if isinstance(n.ctx, ast.Load) and n.id != "node" and len(once.get(n.id, [])) == 1:
+                return once[n.id][0]
+            return n
+
+    import copy as _copy
+    t = unparse(_R().visit(_copy.deepcopy(ifs[0].test)))
+    if "_parser_have(" in t or "parser_stack" in t:
+        rr.bad(Finding("C03.R7", P.PARSER, "parser.double_vbar_fn", t[:160],
+                       "the kind of the cell opened by `||` is decided from the whole parser stack (is a header cell open anywhere?) instead of "
+                       "from the cell it continues: in a table nested inside a header cell of an enclosing table, `| a || b` makes b a header cell",
+                       ifs[0].lineno))
+    elif "children[-1].kind == NodeKind.TABLE_HEADER_CELL" in t:
         rr.ok("parser.double_vbar_fn", "decision inspects node.children[-1]", {"test": t[:120]})
     elif any(k in t for k in ("contain_node", "any(", "find_child", "for ")):
         rr.bad(Finding("C03.R7", P.PARSER, "parser.double_vbar_fn", t[:160],
